@@ -85,6 +85,29 @@ mod string_arithmetic {
 
     use super::Number::{self, *};
 
+    /// Remainder that is `None` only for a zero divisor: `MIN % -1` is 0, as at run time.
+    trait ExactRem: Sized {
+        fn exact_rem(self, rhs: Self) -> Option<Self>;
+    }
+
+    macro_rules! impl_exact_rem {
+        ($($ty:ty),+) => {
+            $(
+                impl ExactRem for $ty {
+                    fn exact_rem(self, rhs: Self) -> Option<Self> {
+                        if rhs == 0 {
+                            None
+                        } else {
+                            Some(self.wrapping_rem(rhs))
+                        }
+                    }
+                }
+            )+
+        };
+    }
+
+    impl_exact_rem!(i32, i128, u8);
+
     macro_rules! parse {
         ($val:expr, $ty:ty) => {
             <std::result::Result<_, _> as anyhow::Context<_, _>>::with_context(
@@ -287,7 +310,7 @@ mod string_arithmetic {
     number_impl!(bitshift checked_shl as Shl, shl);
     number_impl!(bitshift checked_shr as Shr, shr);
     number_impl!(fpNonzero checked_div as Div, div);
-    number_impl!(fpNonzero checked_rem as Rem, rem);
+    number_impl!(fpNonzero exact_rem as Rem, rem);
     number_impl!(infallible bitand as BitAnd, bitand);
     number_impl!(infallible bitor as BitOr, bitor);
     number_impl!(infallible bitxor as BitXor, bitxor);
